@@ -1,11 +1,11 @@
-\* M, thorough: reduced instance XLEN = 16 (adds LH LHU SH: two-byte accesses)
+\* M, thorough: reduced instance XLEN = 16, 15 register triples, all boundary immediates
 CONSTANTS
   XLEN = 16
   NREG = 4
   MEMN = 16
   Dev = {}
-  Triples <- TriplesAll
-  MCVals <- ValsFew
+  Triples <- TriplesFew
+  MCVals <- ValsQuick
   ImmSel = "all"
   GPats = {}
   GVals = {}
